@@ -68,6 +68,18 @@ def cases(tier, seed, phase):
                 msgs.append({'sender': sender, 'rcpts': rcpts, 'data': (h + blank + body).hex()})
             return {'kind': 'hop', 'transport': transport, 'cfg': cfg, 'msgs': msgs}
         yield mk
+    # two HTTP deliveries in flight at the same edge at once: the head and part of the body of one request arrive, then the whole
+    # other request, then the rest of the first
+    for j in range(40 if tier == 'quick' else 600):
+        def mk(j=j):
+            rng = rng_for(seed, 'c06p', j)
+            msgs = []
+            for k in range(2):
+                wf = gen_wf(rng)
+                data = bytes.fromhex(wf['h']) + bytes.fromhex(wf['blank']) + bytes.fromhex(wf['body']) + b'filler %d\r\n' % k * rng.choice([1, 50])
+                msgs.append({'sender': gen_addr(rng, True), 'rcpts': [gen_addr(rng, True) for _ in range(rng.choice([1, 2, 3]))], 'data': data.hex()})
+            return {'kind': 'wsgipair', 'msgs': msgs, 'cutfrac': rng.random()}
+        yield mk
     for j in range(1500 if tier == 'quick' else 30000):
         def mk(j=j):
             rng = rng_for(seed, 'c06u', j)
@@ -362,6 +374,89 @@ def run_hop_lmtp(case, model):
 ADDR_RE = re.compile(rb'^[A-Za-z]+ [A-Za-z]+:<(.*)>( SIZE=\d+)?\r?\n$', re.S)
 
 
+def run_wsgi_pair(case, model):
+    """Raw requests as the real HttpRelay writes them (captured first), replayed interleaved against one WsgiEdge."""
+    import gevent
+    from gevent import socket
+    from gevent.server import StreamServer
+    from slimta.edge.wsgi import WsgiEdge
+    from slimta.relay.http import HttpRelay
+    raws = []
+
+    def capture(sock, addr):
+        f = sock.makefile('rb')
+        head = b''
+        clen = 0
+        while True:
+            l = f.readline()
+            if not l:
+                return
+            head += l
+            if l.lower().startswith(b'content-length:'):
+                clen = int(l.split(b':')[1])
+            if l in (b'\r\n', b'\n'):
+                break
+        body = f.read(clen)
+        raws.append((head, body))
+        sock.sendall(b'HTTP/1.1 200 OK\r\nContent-Length: 0\r\nX-Smtp-Reply: 250; message="2.6.0 ok"\r\n\r\n')
+    cap = StreamServer(('127.0.0.1', 0), capture)
+    cap.start()
+    hits = []
+    q = RecQueue('250')
+    edge = WsgiEdge(q, hostname='edge.example')
+    server = edge.build_server(('127.0.0.1', 0))
+    server.log = None
+    server.start()
+    try:
+        relay = HttpRelay('http://127.0.0.1:%d/' % cap.server_port, ehlo_as='relay.example', timeout=5)
+        for m in case['msgs']:
+            attempt(relay, make_env(m))
+        for c in list(relay.pool):
+            c.kill(block=False)
+        if len(raws) != 2:
+            return CaseResult(None, [hit('c06.harness.capture', 'could not capture the requests', observed=len(raws))], None, ['wsgipair'])
+        (ha, ba), (hb, bb) = raws
+        k = max(1, min(len(ba) - 1, int(case['cutfrac'] * len(ba)))) if len(ba) > 1 else 0
+        statuses = []
+
+        def talk(sock):
+            f = sock.makefile('rb')
+            line = f.readline()
+            statuses.append(line.split(b' ')[1] if line else None)
+        with gevent.Timeout(8, False):
+            sa = socket.create_connection(('127.0.0.1', server.server_port))
+            sa.sendall(ha + ba[:k])
+            gevent.sleep(0.02)
+            sb = socket.create_connection(('127.0.0.1', server.server_port))
+            sb.sendall(hb + bb)
+            talk(sb)
+            sa.sendall(ba[k:])
+            talk(sa)
+            sa.close()
+            sb.close()
+        sent = []
+        for m in case['msgs']:
+            env = make_env(m)
+            h, b = env.flatten()
+            sent.append((m['sender'], list(m['rcpts']), h + b))
+        got = [(g['sender'], g['rcpts'], g['data']) for g in q.got]
+        if len(statuses) != 2 or any(st is None or not st.startswith(b'2') for st in statuses):
+            hits.append(hit('c06.wsgi-pair-not-accepted', 'two overlapping HTTP deliveries were not both accepted', observed=[str(x) for x in statuses]))
+        else:
+            for snd, rcs, data in sent:
+                if not any(g[0] == snd and g[1] == rcs and content_equal(data, g[2]) for g in got):
+                    same_body = [g for g in got if content_equal(data, g[2])]
+                    hits.append(hit('c06.overlapping-http-deliveries-mixed', 'with two HTTP deliveries in flight at once a message was queued with '
+                                    'another sender / other recipients (or not at all)', observed=[(g[0], g[1][:3]) for g in same_body] or 'missing',
+                                    expected=(snd, rcs[:3])))
+                    break
+    finally:
+        server.stop()
+        cap.stop()
+    key = ('wsgipair', repr(case['msgs']), round(case['cutfrac'], 3))
+    return CaseResult(None, hits, key, ['wsgipair'])
+
+
 def run_hop(case, model):
     cfg = case['cfg']
     hits = []
@@ -606,4 +701,6 @@ def run_case(case, model):
         pass
     if case['kind'] == 'hop':
         return run_hop(case, model)
+    if case['kind'] == 'wsgipair':
+        return run_wsgi_pair(case, model)
     return run_unit(case, model)
